@@ -20,6 +20,21 @@ Definition run_lower (cmd : string) (arg : sexp) : sexp :=
       end
     | _ => bad "lower_rearrange: expected (din dout graph)"
     end
+  else if String.eqb cmd "lower_broadcast" then
+    match arg with
+    | L [din; dout; g] =>
+      match dec_dims din, dec_dims dout, dTm 500 g with
+      | Some din, Some dout, Some g =>
+        match single din, single dout with
+        | Some pin, Some pout =>
+          let m := lower_broadcast 0 pin pout in
+          L [A "lower"; sB (broadcast_ok pin pout); sB (equiv m g); sB (wf_tm m); sB (wf_tm g); sNat (tsize (norm m)); sNat (tsize (norm g))]
+        | _, _ => A "not_single"
+        end
+      | _, _, _ => bad "lower_broadcast: cannot decode"
+      end
+    | _ => bad "lower_broadcast: expected (din dout graph)"
+    end
   else if String.eqb cmd "lower_elementwise" then
     match arg with
     | L [fn; dins; dout; g] =>
